@@ -209,6 +209,8 @@ def run(tier, replay):
             for r in ex.map(one, range(shards)):
                 rows.extend(r)
 
+    # (the partially scanned restore of long chains is judged by C15's restore stage: key indices)
+    rows = [r for r in rows if r["kind"] != "restore_partial"]
     terms, expect = [], []
     for r in rows:
         if r["kind"] == "restore":
